@@ -41,6 +41,10 @@ CHECKS["C08"] = dict(level="other", design="3/C08", technique="IR equivalence fo
     text="All operators other than / are shown equal to the built-in ones; neg_inf division equals floor division for all operand pairs; for nearest and tie_to_pos_inf the rounding direction is decided for every dividend along lines with the divisor pinned to a set of constants (both signs, ties, type limits), by recognising each leaf as s_out*trunc((s_in*a+c)/|K|) and comparing (s_out,s_in,c) with the closed form derived from the mode's definition (validated against Fraction arithmetic on each run); the bias arithmetic is checked for undefined operations on UB lines in both directions.",
     note="Rounding direction for two free operands is decided only for neg_inf; for nearest/tie_to_pos_inf only along divisor-pinned lines. Leaves outside the recognised family are undecided (floor-guarded), never alarms.")
 
+CHECKS["C09"] = dict(level="other", design="3/C09", technique="IR equivalence of narrowing conversions with the closed forms that define each rounding mode on integers (validated against a rational oracle); whole-domain UB analysis of the bias arithmetic; an IR precision rule on the floating-point bias addition; constructor kernels decided by the divisor-pinned line family",
+    text="scaled->coarser scaled and scaled->integer conversions under each rounding tag equal x>>k, (x+2^(k-1))>>k, (x +/- 2^(k-1))/2^k for all source values; digit-preserving conversions equal the plain conversion; the bias arithmetic is searched for undefined operations over the whole source range; in floating->integer conversions the instruction adding +/-0.5 must work in a strictly wider floating type than the source; constructors of scaled_integer<rounding_integer<>> round by the destination's mode.",
+    note="Floating-point value semantics beyond the precision rule, and radix != 2, are not decided.")
+
 NOT_APPLICABLE = {
     "C10": "limb-array loops of the vendored uintwide_t have data-dependent control; no static abstraction in reach relates them to arithmetic mod 2^N (DESIGN 3/C10)",
     "C17": "termination/accuracy of the floating-point driven Stern-Brocot loop is a numerical statement with no structural clause (DESIGN 3/C17)",
